@@ -306,6 +306,7 @@ mod h {
         let code_id: u64 = kani::any();
         let body: u8 = kani::any();
         let salt: [u8; 2] = kani::any();
+        let empty_salt: bool = kani::any();
         let has_label: bool = kani::any();
         let lb: u8 = kani::any();
         kani::assume(lb < 128);
@@ -313,10 +314,16 @@ mod h {
         if has_label {
             ib = ib.with_label(one_char(lb));
         }
-        match ib.build2(Binary::from(salt.to_vec())) {
+        let built = if empty_salt { ib.build2(Binary::default()) } else { ib.build2(Binary::from(salt.to_vec())) };
+        match built {
             WasmMsg::Instantiate2 { admin, code_id: cid, label, msg, funds, salt: s2 } => {
                 assert!(cid == code_id && admin.is_none() && funds.is_empty());
-                assert!(bytes_eq(msg.as_slice(), &[body]) && bytes_eq(s2.as_slice(), &salt), "arguments and salt");
+                assert!(bytes_eq(msg.as_slice(), &[body]), "arguments");
+                if empty_salt {
+                    assert!(s2.as_slice().is_empty(), "an empty salt is still the salted form");
+                } else {
+                    assert!(bytes_eq(s2.as_slice(), &salt), "salt");
+                }
                 if has_label {
                     assert!(str_eq(&label, &one_char(lb)));
                 } else {
@@ -325,8 +332,8 @@ mod h {
             }
             _ => assert!(false, "the salted form"),
         }
-        kani::cover!(has_label);
-        kani::cover!(!has_label);
+        kani::cover!(has_label && empty_salt);
+        kani::cover!(!has_label && !empty_salt);
     }
 
     // @PLAYBACK h@
